@@ -5,6 +5,7 @@ CONSTANTS
   MaxCalls = 7
   Counts = {1, 2, 4}
   Depth = 7
+  DrainedOK = TRUE
   OwedVals = {0, 3}
 SPECIFICATION RSpec
 INVARIANT Emit
